@@ -113,13 +113,31 @@ def gen_one(rng, k):
     return s
 
 
+def gen_retry(rng, k):
+    """forwarding history: the first destination (parent A) answers a complete re-forwardable 502/504, Squid
+    retries at parent B, which serves the scenario's response (often cut short)"""
+    while True:
+        s = gen_one(rng, k)
+        if s["framing"] in ("cl", "chunked", "close") and s["method"] == "GET" and not s.get("bad") and s["n"] <= 200000:
+            break
+    s.pop("cache", None)
+    s.pop("ver2", None)
+    s["retry"] = {"status": rng.choice([502, 504]), "len": rng.choice([0, 19, 3000]), "close": rng.random() < 0.5}
+    if rng.random() < 0.6 and s["framing"] in ("cl", "chunked") and "declared" not in s and not s["extra"]:
+        s["cut"] = rng.random()
+        s["close"] = True
+    if rng.random() < 0.7:
+        s["ver"] = "1.1"
+    return s
+
+
 def gen_scenarios(rng, n):
-    out = [gen_one(rng, k) for k in range(n)]
+    out = [gen_retry(rng, k) if k % 12 == 5 else gen_one(rng, k) for k in range(n)]
     # every 150 scenarios relay at least one ~1 MB body
     for start in range(20, n, 150):
         for s in out[start:start + 40]:
             if s["framing"] in ("cl", "chunked", "close") and s["method"] == "GET" and not s.get("bad") and "declared" not in s:
-                if s["n"] < 700000:
+                if s["n"] < 700000 and not s.get("retry"):
                     s["n"] = 1048576 + rng.choice([-1, 0, 1])
                     s["splits"] = s["splits"][:3]
                     if "chunks" in s:
@@ -254,6 +272,13 @@ def _hook(rec, spec):
     return _registry.get(rec["rid"])
 
 
+_registry_a = {}
+
+
+def _hook_a(rec, spec):
+    return _registry_a.get(rec["rid"])
+
+
 def fetch(port, url, ver, method):
     req = ("%s %s HTTP/%s\r\nHost: x\r\n\r\n" % (method, url, ver)).encode()
     s = socket.create_connection(("127.0.0.1", port), timeout=5)
@@ -314,6 +339,21 @@ def _one(args):
     _registry[rid] = {"raw": base64.b64encode(data).decode(), "splits": s["splits"], "split_delay": s["split_delay"],
                       "close": bool(s["close"])}
     url = org.url({}, rid)
+    if s.get("retry"):
+        # second proxy instance whose only destinations are two parents: A (first choice) answers 502/504, B serves `s`
+        r = s["retry"]
+        first = ("HTTP/1.1 %d Bad Gateway\r\nDate: Tue, 22 Sep 2026 10:00:00 GMT\r\nContent-Type: text/plain\r\n"
+                 "Content-Length: %d\r\n%s\r\n" % (r["status"], r["len"], "Connection: close\r\n" if r["close"] else "")).encode() + b"a" * r["len"]
+        _registry_a[rid] = {"raw": base64.b64encode(first).decode(), "close": bool(r["close"])}
+        sqp, org_a = _state["sqp"], _state["org_a"]
+        na = len(org_a.arrivals(rid))
+        raw, closed = fetch(sqp.port, url, s["ver"], s["method"])
+        obs = observe(raw, closed, s["method"])
+        if len(org_a.arrivals(rid)) != 1 or len(org.arrivals(rid)) != 1:
+            obs += " attempts=A%d,B%d" % (len(org_a.arrivals(rid)), len(org.arrivals(rid)))
+        _registry_a.pop(rid, None)
+        _registry.pop(rid, None)
+        return obs
     raw, closed = fetch(sq.port, url, s["ver"], s["method"])
     obs = observe(raw, closed, s["method"])
     if s.get("cache"):
@@ -332,6 +372,11 @@ def run_impl(L, scenarios):
         _state["sq"] = L.squid(cache_mem="64 MB", extra_conf="maximum_object_size_in_memory 2 MB\n")
         _state["n"] = 0
     sq, org = _state["sq"], _state["org"]
+    if any(s.get("retry") for s in scenarios) and ("sqp" not in _state or not _state["sqp"].alive()):
+        _state["org_a"] = L.origin(hook=_hook_a)
+        _state["sqp"] = L.squid(extra_conf="cache_peer 127.0.0.1 parent %d 0 no-query no-digest no-netdb-exchange name=parentA\n"
+                                           "cache_peer 127.0.0.1 parent %d 0 no-query no-digest no-netdb-exchange name=parentB\n"
+                                           "never_direct allow all\n" % (_state["org_a"].port, org.port))
     jobs = []
     for s in scenarios:
         _state["n"] += 1
@@ -417,6 +462,8 @@ def kind_fn(s, o):
         k += ":complete"
     if s.get("cache"):
         k += "+" + _stats.get(s["k"], "?")
+    if s.get("retry"):
+        k += "+retried"
     return k
 
 
@@ -439,11 +486,13 @@ def run(res, tier):
                 "Content-Length, chunked with random chunk sizes / extensions / trailers, close-delimited; body sizes 0..1 MB "
                 "concentrated on 4K/8K/16K/32K/64K/128K +-2; declared length larger or smaller than sent; premature close at a "
                 "random payload offset; malformed chunk framing; bytes after the end of the message; random write "
-                "segmentation incl. inside the head), HTTP/1.0 and HTTP/1.1 clients, memory cache on (second request for the "
+                "segmentation incl. inside the head), forwarding histories (first parent answers a complete 502/504, the retry at the "
+                "second parent serves the response, often cut short), HTTP/1.0 and HTTP/1.1 clients, memory cache on (second request for the "
                 "same URL) and off; non-trivial = a body or extra bytes are present")
     std.run_lab(res, PID, tier, area="relay", gens=["relay"], gen_scenarios=gen_scenarios, run_impl=run_impl,
                 to_case=to_case, oracle=oracle, corr_name="RelayModel.relay (client framing, decoded body, completeness) vs the running squid",
                 n_quick=150, n_thorough=2500, seed_salt=1, kind_fn=kind_fn, nontrivial_fn=nontrivial_fn)
     _state.clear()
     _registry.clear()
+    _registry_a.clear()
     _cache.clear()
